@@ -650,8 +650,136 @@ def covariance(run, it, tier):
                   text="C'_ab + n' mean'_a mean'_b == C_ab + n mean_a mean_b + x_a x_b for every index pair (a,b)")
     it.explore(h_update, "cov.update")
 
+    qf = cls + ".finalize"
+
+    class CovChainList:
+        """adapt_states of unknown length K >= 1; element i is a dict of fresh sufficient statistics (n_i >= 1, mean_i (2 generic components), C_i (2x2)).
+        Ghost sums over the chains consumed so far live in ctx.ghost['GC'] = (count, [sum_a], [[sum of x_a x_b]])."""
+
+        def __init__(self, K):
+            self.K = K
+
+        def _pv_enumerate(self, ex_, start=0):
+            if start != 0:
+                raise OutsideSubset("enumerate(adapt_states, start != 0)")
+            outer = self
+
+            class EnumView:
+                def _pv_generic(self, ex2):
+                    return outer._pv_generic(ex2, pairs=True)
+            return EnumView()
+
+        def _pv_generic(self, ex_, pairs=False):
+            idx = ex_.ctx.ghost["loop_index"]
+
+            def cond():
+                return ex_.ctx.branch(z3.And(idx >= 0, idx < self.K))
+
+            def bind():
+                c = ex_.ctx
+                nc = c.fresh("chain_n", "real")
+                mc = [c.fresh("chain_mean_i", "real"), c.fresh("chain_mean_j", "real")]
+                Cc = [[c.fresh(f"chain_C_{a}{b}", "real") for b in "ij"] for a in "ij"]
+                c.assume(nc >= 1)  # precondition: every chain made at least one update in the stage
+                n0, s1, s2 = c.ghost["GC"]
+                c.ghost["GC"] = (n0 + nc, [s1[a] + nc * mc[a] for a in range(2)],
+                                 [[s2[a][b] + Cc[a][b] + nc * mc[a] * mc[b] for b in range(2)] for a in range(2)])
+                elem = {"iter": nc, "mean": CVec(*mc), "sum_diff_outer": CMat(Cc)}
+                return (idx, elem) if pairs else elem
+            return cond, bind
+
     def h_finalize(ctx):
-        k = ctx.choose(4, "chains")  # 0: single dict; 1..3 chains
+        k = ctx.choose(5, "chains")  # 0: single dict; 1..3 chains (explicit); 4: ANY number of chains K >= 1, merge loop cut by an invariant over ghost sums
+        if k == 4:
+            return h_finalize_any(ctx)
+        return h_finalize_fixed(ctx, k)
+
+    def h_finalize_any(ctx):
+        r_off, r_scale = z3.Int("reg_iter_offset"), z3.Real("reg_scale")
+        ctx.assume(r_off >= 0)
+        ad, ex = new_adapter(it, ctx, cls, reg_iter_offset=r_off, reg_scale=r_scale)
+        sampled = []
+        system = Opaque("system", metric="old-metric")
+
+        def sample_momentum(ex_, cs, rng):
+            sampled.append((cs, rng, system._attrs["metric"]))
+            return Opaque("fresh-momentum", for_state=cs)
+        system._attrs["sample_momentum"] = Native(sample_momentum, "system.sample_momentum")
+        trans = Opaque("transition", system=system)
+        tag = P + cls + ".finalize"
+        K = z3.Int("n_chains")
+        ctx.assume(K >= 1)
+        zero = z3.RealVal(0)
+        ctx.ghost["GC"] = (zero, [zero, zero], [[zero, zero], [zero, zero]])
+        states = CovChainList(K)
+        css = [Opaque(f"cs{c}", mom="old", pos=Opaque(f"pos{c}", shape=("n",))) for c in range(2)]
+        rngs = [_rng_stub(c) for c in range(2)]
+
+        def havoc(ex_):
+            c = ex_.ctx
+            i = c.fresh("i", "int")
+            c.ghost["loop_index"] = i
+            c.assume(i >= 0)
+            if c.choose(2, "i>=1") == 1:
+                c.assume(i >= 1)
+                # an arbitrary state satisfying the invariant, parametrised by the pooled statistics themselves (the ghost sums are DEFINED from them), so
+                # that preservation is a rational identity in (pooled, next chain) statistics
+                npool = c.fresh("n_pool", "real")
+                mp = [c.fresh("mean_pool_i", "real"), c.fresh("mean_pool_j", "real")]
+                Cp = [[c.fresh(f"C_pool_{a}{b}", "real") for b in "ij"] for a in "ij"]
+                c.assume(npool >= 1)
+                c.ghost["GC"] = (npool, [npool * mp[a] for a in range(2)], [[Cp[a][b] + npool * mp[a] * mp[b] for b in range(2)] for a in range(2)])
+                ex_.env.set("n_iter", npool)
+                ex_.env.set("mean_est", CVec(*mp))
+                ex_.env.set("covar_est", CMat(Cp))
+            else:
+                c.assume(i == 0)
+
+        def inv(ex_):
+            i = lift(ex_.ctx.ghost.get("loop_index", 0))
+            try:
+                n_ = lift(ex_.env.lookup("n_iter"))
+                me = ex_.env.lookup("mean_est").c
+                ce = ex_.env.lookup("covar_est").m
+            except KeyError:
+                return i == 0
+            n0, s1, s2 = ex_.ctx.ghost["GC"]
+            return z3.And(i >= 1, i <= K, n_ >= 1, n_ == n0, *[n_ * me[a] == s1[a] for a in range(2)],
+                          *[ce[a][b] + n_ * me[a] * me[b] == s2[a][b] for a in range(2) for b in range(2)])
+        it.loop_specs[(qf, 0)] = LoopSpec(inv, havoc)
+        try:
+            try:
+                ex.call(ex.getattr(ad, "finalize"), [states, css, trans, rngs], {})
+            except PyRaise as pr:
+                ok = pr.exc.cls.name == "AdaptationError"
+                ctx.run.ob(tag + "/only-adaptation-error", core.DISCHARGED if ok else core.FAILED, "pyvc", detail="" if ok else exc_name(pr.exc))
+                if ok:
+                    ctx.prove(tag + "/adaptation-error-only-below-two-samples", ctx.ghost["GC"][0] < 2)
+                return
+        finally:
+            it.loop_specs.pop((qf, 0), None)
+        metric = system._attrs["metric"]
+        ok = isinstance(metric, Opaque) and metric._name == "DensePositiveDefiniteMatrix.inv"
+        ctx.run.ob(tag + "/metric-is-inverse-of-covariance", core.DISCHARGED if ok else core.FAILED, "pyvc", detail="" if ok else str(metric))
+        if not ok:
+            return
+        cov = metric._attrs["of"]._attrs["array"].m
+        N, S1, S2 = ctx.ghost["GC"]
+        ro = z3.ToReal(r_off)
+        ctx.prove(tag + "/needs-two-samples", N >= 2)
+        conds = []
+        for a in range(2):
+            for b in range(2):
+                raw = (S2[a][b] - S1[a] * S1[b] / N) / (N - 1)
+                want = N / (ro + N) * raw + (r_scale * (ro / (ro + N)) if a == b else 0)
+                conds.append(cov[a][b] * (ro + N) * (N - 1) * N == want * (ro + N) * (N - 1) * N)
+        ctx.prove(tag + "/pooled-regularised-covariance[any number of chains]", z3.And(*conds), prefer="algebra",
+                  text="for ANY number of chains (merge loop cut by the invariant n == sum n_c, n mean_a == sum of positions_a, C_ab + n mean_a mean_b == sum of x_a x_b over "
+                       "the chains consumed): covar_est == n/(n+r) * pooled unbiased sample covariance + reg_scale*r/(n+r) on the diagonal => independent of split and order")
+        good = [s_ for s_, _, _ in sampled] == css and [r for _, r, _ in sampled] == rngs and all(m is metric for _, _, m in sampled)
+        ctx.run.ob(tag + "/momenta-refreshed-under-new-metric", core.DISCHARGED if good else core.FAILED, "pyvc", detail="" if good else str(sampled))
+
+    def h_finalize_fixed(ctx, k):
         r_off, r_scale = z3.Int("reg_iter_offset"), z3.Real("reg_scale")
         ctx.assume(r_off >= 0)
         ad, ex = new_adapter(it, ctx, cls, reg_iter_offset=r_off, reg_scale=r_scale)
@@ -706,9 +834,7 @@ def covariance(run, it, tier):
                   text="covar_est == n/(n+r) * pooled unbiased sample covariance of all positions + reg_scale*r/(n+r) on the diagonal")
         good = [s for s, _, _ in sampled] == css and [r for _, r, _ in sampled] == rngs and all(m is metric for _, _, m in sampled)
         ctx.run.ob(tag + "/momenta-refreshed-under-new-metric", core.DISCHARGED if good else core.FAILED, "pyvc", detail="" if good else str(sampled))
-    it.explore(h_finalize, "cov.finalize", roots=[[0], [1], [2], [3]])
-    run.bounded.append({"id": "C17/" + P + cls + ".finalize", "detail": "covariance merge verified for 1, 2 and 3 chains (values unbounded); "
-                        "the variance adapter's structurally identical merge is proved for any number of chains by a loop invariant"})
+    it.explore(h_finalize, "cov.finalize", roots=[[0], [1], [2], [3], [4]])
 
 
 def large_offsets(run_):
